@@ -1216,15 +1216,18 @@ theorem declT_cover (m : Machine) : ∀ p d, m.defAt p = some d → ∀ t ∈ al
 /-- one iteration of the loop in `_process_event`; `multi` is `len(transitions) > 1` -/
 def stepSel (h : Hooks) (fl : Flavor) (m : Machine) (ev : Ev) (multi : Bool) (s : St) (c : Cand) : St :=
   if s.err.isSome then s
+  else if finished s.status then s
   else if multi && !(s.cfg.contains c.src) then s
   else execute h fl m ev (planTransition m s.cfg s.hist c) s
 
 /-- the candidates of `cs` that are really executed from state `s`: those reached without a pending
-    error whose source is still active (the test is only made when several were selected) -/
+    error, before the machine has finished (`break` once the status is no longer running), whose
+    source is still active (the test is only made when several were selected) -/
 def firedOf (h : Hooks) (fl : Flavor) (m : Machine) (ev : Ev) (multi : Bool) : List Cand → St → List Cand
   | [], _ => []
   | c :: cs, s =>
     if s.err.isSome then []
+    else if finished s.status then []
     else if multi && !(s.cfg.contains c.src) then firedOf h fl m ev multi cs s
     else c :: firedOf h fl m ev multi cs (execute h fl m ev (planTransition m s.cfg s.hist c) s)
 
@@ -1239,8 +1242,10 @@ theorem firedOf_sublist (h : Hooks) (fl : Flavor) (m : Machine) (ev : Ev) (multi
     split
     · exact List.nil_sublist _
     · split
-      · exact (ih s).cons _
-      · exact (ih _).cons_cons _
+      · exact List.nil_sublist _
+      · split
+        · exact (ih s).cons _
+        · exact (ih _).cons_cons _
 
 theorem foldl_stepSel_err (h : Hooks) (fl : Flavor) (m : Machine) (ev : Ev) (multi : Bool) :
     ∀ (cs : List Cand) (s : St), s.err.isSome = true → cs.foldl (stepSel h fl m ev multi) s = s := by
@@ -1250,6 +1255,18 @@ theorem foldl_stepSel_err (h : Hooks) (fl : Flavor) (m : Machine) (ev : Ev) (mul
   | cons c cs ih =>
     intro s hs
     simp only [List.foldl_cons, stepSel, hs, if_true]
+    exact ih s hs
+
+theorem foldl_stepSel_finished (h : Hooks) (fl : Flavor) (m : Machine) (ev : Ev) (multi : Bool) :
+    ∀ (cs : List Cand) (s : St), finished s.status = true → cs.foldl (stepSel h fl m ev multi) s = s := by
+  intro cs
+  induction cs with
+  | nil => intro s _; rfl
+  | cons c cs ih =>
+    intro s hs
+    have : stepSel h fl m ev multi s c = s := by
+      unfold stepSel; simp only [hs, if_true]; split <;> rfl
+    rw [List.foldl_cons, this]
     exact ih s hs
 
 /-- the executing step, applied unconditionally -/
@@ -1267,10 +1284,13 @@ theorem foldl_stepSel_eq (h : Hooks) (fl : Flavor) (m : Machine) (ev : Ev) (mult
     by_cases hs : s.err.isSome = true
     · rw [foldl_stepSel_err h fl m ev multi _ s hs]
       simp [firedOf, hs]
-    · by_cases hst : (multi && !(s.cfg.contains c.src)) = true
-      · simp only [List.foldl_cons, stepSel, firedOf, hs, hst, if_true, if_false, Bool.false_eq_true]
+    · by_cases hfin : finished s.status = true
+      · rw [foldl_stepSel_finished h fl m ev multi _ s hfin]
+        simp [firedOf, hs, hfin]
+      by_cases hst : (multi && !(s.cfg.contains c.src)) = true
+      · simp only [List.foldl_cons, stepSel, firedOf, hs, hfin, hst, if_true, if_false, Bool.false_eq_true]
         exact ih s
-      · simp only [List.foldl_cons, stepSel, firedOf, hs, hst, if_false, Bool.false_eq_true]
+      · simp only [List.foldl_cons, stepSel, firedOf, hs, hfin, hst, if_false, Bool.false_eq_true]
         rw [ih]; rfl
 
 theorem processEvent_ok (h : Hooks) (fl : Flavor) (m : Machine) (u : UEnv) (ev : Ev) (s : St)
